@@ -61,10 +61,10 @@ def run_kind(kind, outdir, inp):
     import random as _r
     if kind in ("py", "cs", "cpp"):
         iface = kj.events_interface(_r.Random(inp["iface_seed"]), inp["table"], inp["lang"], inp.get("usertags"))
-        return generate(kind, outdir, table=[list(r) for r in inp["table"]], iface=iface, name=inp["name"])
+        return generate(kind, outdir, table=[list(r) for r in inp["table"]], iface=iface, name=inp["name"], copy_other=bool(inp.get("copy_other")))
     if kind == "proto":
         iface = kj.random_proto_interface(_r.Random(inp["iface_seed"]))
-        return generate(kind, outdir, iface=iface, name=inp["name"])
+        return generate(kind, outdir, iface=iface, name=inp["name"], copy_other=bool(inp.get("copy_other")))
     return generate(kind, outdir, name=inp["name"], ns=inp["ns"])
 
 
